@@ -57,3 +57,24 @@ package mpx
 //@   trusted
 //@ func (*context).Done
 //@   trusted
+
+// ---- pooled objects (C18): a released object holds nothing of its previous use
+
+//@ func (*channelState).reset
+//@   safety[C18]
+//@   requires s != nil && s.recvQueue != nil && (s.ctx != nil ==> s.ctx.CancelContext != nil)
+//@   modifies mpx.channelState.*
+//@   modifies atomic.*
+//@   modifies sync.*
+//@   modifies mpx.channelSender.*
+//@   modifies uint8
+//@   resets[C18] s
+//@   retains s.sendWindowWait   one-slot wake-up channel, drained by the select above
+//@   retains s.recvQueue        byte queue, emptied by Reset()
+
+//@ func releaseChannelHandler
+//@   safety[C18]
+//@   requires h != nil
+//@   modifies mpx.channelHandler.*
+//@   modifies pools.*
+//@   resets[C18] h
